@@ -3,7 +3,9 @@
 
 usage: run_seeded.py [name ...] [--props C04,C12] [--tier quick]
 For each change: git -C /repo apply patch.diff; run the property's check (and any extra --props);
-record exit status and VIOLATION lines; git -C /repo checkout -- . ; finally re-run on the clean tree.
+record exit status and VIOLATION lines; git -C /repo checkout -- . (option --inplace=1).
+Default: the same in a scratch worktree of /repo's HEAD under /tmp/wt (checks run with NV_REPO pointing at
+it), so that other work reading /repo is not disturbed; the worktree is removed afterwards.
 Writes seeded/RESULTS.json.  Never commits anything in /repo.
 """
 import json, os, subprocess, sys, time
@@ -18,6 +20,16 @@ def main():
     opts = dict(a[2:].split("=", 1) for a in sys.argv[1:] if a.startswith("--") and "=" in a)
     tier = opts.get("tier", "quick")
     names = args or sorted(d for d in os.listdir(os.path.join(VERIF, "seeded")) if os.path.isdir(os.path.join(VERIF, "seeded", d)))
+    global REPO
+    env_extra = {}
+    wt = None
+    if opts.get("inplace") != "1":
+        wt = "/tmp/wt/seedrun_%d" % os.getpid()
+        os.makedirs("/tmp/wt", exist_ok=True)
+        r = sh(["git", "-C", "/repo", "worktree", "add", "-q", "--detach", wt, "HEAD"])
+        assert r.returncode == 0, r.stdout
+        REPO = wt
+        env_extra = {"NV_REPO": wt}
     assert sh(["git", "-C", REPO, "status", "--porcelain"]).stdout.strip() == b"", "/repo not clean"
     resp = os.path.join(VERIF, "seeded", "RESULTS.json")
     results = json.load(open(resp)) if os.path.exists(resp) else {}
@@ -33,7 +45,7 @@ def main():
             for p in props:
                 t0 = time.time()
                 c = sh([sys.executable, os.path.join(VERIF, "tools", "check.py"), p, "--tier", tier], cwd=VERIF,
-                       env=dict(os.environ, VERIF_SEED=opts.get("seed", "0")))
+                       env=dict(os.environ, VERIF_SEED=opts.get("seed", "0"), **env_extra))
                 out = c.stdout.decode(errors="replace")
                 viol = [l for l in out.split("\n") if l.startswith("VIOLATION")]
                 res[p] = {"exit": c.returncode, "violations": len(viol), "first": viol[:2], "wall_s": round(time.time() - t0, 1),
@@ -45,6 +57,8 @@ def main():
             sh(["git", "-C", REPO, "checkout", "--", "."])
     json.dump(results, open(resp, "w"), indent=1, sort_keys=True)
     assert sh(["git", "-C", REPO, "status", "--porcelain"]).stdout.strip() == b"", "/repo not clean after run"
+    if wt:
+        sh(["git", "-C", "/repo", "worktree", "remove", "--force", wt])
 
 if __name__ == "__main__":
     main()
